@@ -81,11 +81,18 @@ def do_replay(path):
 
 
 def nostd_gate():
-    """C06 (iii): not a solver query -- the crate must compile with default features (no_std in effect)"""
-    cmd = ['build', '--offline', '--lib']
-    rc1, out1 = runner.cargo(cmd, 'gate-nostd', cwd=runner.REPO)
-    rc2, out2 = runner.cargo(cmd + ['--features', 'std'], 'gate-std', cwd=runner.REPO)
-    return {'nostd_ok': rc1 == 0, 'std_ok': rc2 == 0, 'cmd': 'cd /repo && cargo ' + ' '.join(cmd), 'out': out1}
+    """C06 (iii): not a solver query -- the library must compile with default features (no_std in effect), in the dev
+    AND the release profile (cfg(debug_assertions) can hide a std:: path from one of them)"""
+    outs, ok_n, ok_s = [], True, True
+    for prof in ([], ['--release']):
+        cmd = ['build', '--offline', '--lib'] + prof
+        rc1, out1 = runner.cargo(cmd, 'gate-nostd', cwd=runner.REPO)
+        rc2, out2 = runner.cargo(cmd + ['--features', 'std'], 'gate-std', cwd=runner.REPO)
+        ok_n = ok_n and rc1 == 0
+        ok_s = ok_s and rc2 == 0
+        if rc1 != 0:
+            outs.append('$ cargo %s\n%s' % (' '.join(cmd), out1[-2500:]))
+    return {'nostd_ok': ok_n, 'std_ok': ok_s, 'cmd': 'cd /repo && cargo build --offline --lib [--release]', 'out': '\n'.join(outs)}
 
 
 def run_property(prop, tier, seed):
@@ -99,13 +106,19 @@ def run_property(prop, tier, seed):
         import re
         obs = [o for o in obs if re.search(only, o.name)]
     log('%s tier=%s: %d obligations (engine L: rustc LLVM IR -> C -> CBMC)' % (prop, tier, len(obs)))
-    results, builds = runner.run_all(obs, caps, label=prop)
+    gate = checks.PROPS[prop].get('gate')
+    gate_info = nostd_gate() if gate == 'nostd_build' else None
+    try:
+        results, builds = runner.run_all(obs, caps, label=prop)
+    except Inconclusive as e:
+        if gate_info and not gate_info['nostd_ok'] and gate_info['std_ok']:
+            log('  harness build failed (%s); the build gate explains it' % str(e).splitlines()[0][:120])
+            results, builds = [], {}
+        else:
+            raise
     known = load_known()
     violations, known_hits, inconclusive = [], [], []
-    gate = checks.PROPS[prop].get('gate')
-    gate_info = None
     if gate == 'nostd_build':
-        gate_info = nostd_gate()
         log('  build gate: no-std build %s, std build %s' % ('ok' if gate_info['nostd_ok'] else 'FAILED', 'ok' if gate_info['std_ok'] else 'FAILED'))
         if not gate_info['nostd_ok'] and gate_info['std_ok']:
             os.makedirs(os.path.join(VERIF, 'replays'), exist_ok=True)
